@@ -901,4 +901,152 @@ theorem handleOpened_extra (e : Engine) (deadline : Nat) (hinv : Inv e) (h : Ext
     simp only [Engine.enqueue, hop, Bool.false_eq_true, ↓reduceIte]
     exact hC
 
+/-! ### the service path: taking an operation from a queue -/
+
+theorem Extra.popHigh {W : List Nat} {v : View} (h : Extra false W v) (id : Nat) (r : List Nat) (hq : v.highQ = id :: r) :
+    Extra false W { v with highQ := r } := by
+  have hsub : ∀ i, i ∈ r → i ∈ v.highQ := fun i hi => by rw [hq]; exact List.mem_cons_of_mem _ hi
+  exact { h with
+    x3 := fun i hi => h.x3 i (hsub i hi)
+    x5 := ⟨h.x5.1, fun i hi hm => h.x5.2 i hi (hsub i hm)⟩
+    x6 := fun i hc hm => h.x6 i hc (hsub i hm)
+    x7 := fun i hi => by
+      have h7 := h.x7 i (hsub i hi)
+      rw [hq] at h7
+      by_cases hid : i = id
+      · subst hid
+        rcases h7 with a | a
+        · exfalso
+          simp only [List.count_cons_self] at a
+          have : r.count i = 0 := by omega
+          exact (List.count_eq_zero.mp this) hi
+        · exact .inr a
+      · rcases h7 with a | a
+        · left
+          rw [List.count_cons_of_ne (Ne.symm hid)] at a
+          exact a
+        · exact .inr a
+    h1e := fun hs => by
+      obtain ⟨a, b⟩ := h.h1e hs
+      refine ⟨fun i hi => a i ?_, b⟩
+      rcases List.mem_append.mp hi with c | c
+      · exact List.mem_append_left _ (hsub i c)
+      · exact List.mem_append_right _ c }
+
+theorem Extra.popResub {W : List Nat} {v : View} (h : Extra false W v) (id : Nat) (r : List Nat) (hq : v.resubQ = id :: r) :
+    Extra false W { v with resubQ := r } := by
+  have hsub : ∀ i, i ∈ v.userQ ++ r → i ∈ v.userQ ++ v.resubQ := fun i hi => by
+    rw [hq]
+    rcases List.mem_append.mp hi with a | a
+    · exact List.mem_append_left _ a
+    · exact List.mem_append_right _ (List.mem_cons_of_mem _ a)
+  exact { h with
+    x2 := fun i hi => h.x2 i (hsub i hi)
+    x4 := fun i hc => ⟨(h.x4 i hc).1, fun hm => (h.x4 i hc).2 (by rw [hq]; exact List.mem_cons_of_mem _ hm)⟩
+    x5 := ⟨by
+      have := h.x5.1
+      rw [hq] at this
+      have hs : (v.userQ ++ r).Sublist (v.userQ ++ id :: r) := List.Sublist.append_left (List.sublist_cons_self id r) _
+      exact this.sublist hs, fun i hi => h.x5.2 i (hsub i hi)⟩ }
+
+theorem Extra.popUser {W : List Nat} {v : View} (h : Extra false W v) (id : Nat) (r : List Nat) (hq : v.userQ = id :: r) :
+    Extra false W { v with userQ := r } := by
+  have hsub : ∀ i, i ∈ r ++ v.resubQ → i ∈ v.userQ ++ v.resubQ := fun i hi => by
+    rw [hq]
+    rcases List.mem_append.mp hi with a | a
+    · exact List.mem_append_left _ (List.mem_cons_of_mem _ a)
+    · exact List.mem_append_right _ a
+  exact { h with
+    x2 := fun i hi => h.x2 i (hsub i hi)
+    x4 := fun i hc => ⟨fun hm => (h.x4 i hc).1 (by rw [hq]; exact List.mem_cons_of_mem _ hm), (h.x4 i hc).2⟩
+    x5 := ⟨by
+      have := h.x5.1
+      rw [hq] at this
+      exact (List.nodup_cons.mp this).2, fun i hi => h.x5.2 i (hsub i hi)⟩
+    op := fun hs i hi o ho => h.op hs i (by rw [hq]; exact List.mem_cons_of_mem _ hi) o ho }
+
+/-- the operation taken from a queue becomes the one being written -/
+theorem Extra.setCurrentSome {W : List Nat} {v : View} (h : Extra false W v) (hc : v.current = none) (id : Nat)
+    (h1 : id ∉ v.userQ ∧ id ∉ v.resubQ ∧ id ∉ v.pendingWC ∧ id ∉ vals v.pendingNonPub)
+    (h2 : id ∈ vals v.pendingPub ∨ id ∈ v.highQ → ∀ o, v.ops.lookup id = some o → o.pubrel.isSome = true)
+    (hex : ∃ o, v.ops.lookup id = some o) :
+    Extra false W { v with current := some id } :=
+  { h with
+    x1a := fun _ i hi => by cases hi; exact h1.2.2.1
+    x1b := fun _ i hi => by cases hi; exact h1.2.2.2
+    x1c := fun _ i hi hm => by cases hi; exact h2 (.inl hm)
+    x4 := fun i hi => by cases hi; exact ⟨h1.1, h1.2.1⟩
+    x6 := fun i hi hm => by cases hi; exact h2 (.inr hm)
+    cur := fun _ i hi => by cases hi; exact hex }
+
+theorem Extra.setCurrentNone {W : List Nat} {filed : Bool} {v : View} (h : Extra filed W v) : Extra false W { v with current := none } :=
+  { h with
+    x1a := fun _ i hi => by cases hi
+    x1b := fun _ i hi => by cases hi
+    x1c := fun _ i hi => by cases hi
+    x4 := fun i hi => by cases hi
+    x6 := fun i hi => by cases hi
+    cur := fun _ i hi => by cases hi }
+
+/-- taking the next operation: what `dequeue` hands out can become the current operation -/
+theorem dequeue_extra (e : Engine) (all : Bool) (hinv : Inv e) (h : Extra false [] e.view) (hc : e.current = none) :
+    Extra false [] (e.dequeue all).1.view ∧ (e.dequeue all).1.current = none ∧ (e.dequeue all).1.ops = e.ops ∧
+    ∀ id, (e.dequeue all).2 = some id → (∃ o, e.ops.lookup id = some o) →
+      Extra false [] ({ (e.dequeue all).1 with current := some id } : Engine).view := by
+  have hb := hinv.2.1
+  rcases dequeue_cases e all with ⟨hn, he⟩ | ⟨id, r, hq, hd⟩ | ⟨id, r, _, _, hq, _, hd⟩ | ⟨id, r, _, _, _, hq, _, hd⟩
+  · rw [he]
+    exact ⟨h, hc, rfl, fun id hid => by rw [hn] at hid; cases hid⟩
+  · rw [hd]
+    have hp : Extra false [] ({ e with highQ := r } : Engine).view := h.popHigh id r hq
+    refine ⟨hp, hc, rfl, ?_⟩
+    intro i hi hex
+    cases hi
+    have hmem : id ∈ e.highQ := by rw [hq]; exact List.mem_cons_self ..
+    have hnq : id ∉ e.userQ ++ e.resubQ := fun hm => h.x5.2 id hm hmem
+    refine hp.setCurrentSome hc id ⟨fun a => hnq (List.mem_append_left _ a), fun a => hnq (List.mem_append_right _ a), (h.x3 id hmem).1, (h.x3 id hmem).2⟩ ?_ hex
+    intro hor o ho
+    rcases hor with a | a
+    · obtain ⟨k, hk⟩ := lookup_of_mem_vals hb.tps a
+      obtain ⟨o2, ho2, _, hk2⟩ := hb.tp k id hk
+      have : o2 = o := by rw [show e.view.ops.lookup id = some o from ho] at ho2; cases ho2; rfl
+      subst this
+      exact hb.h2 id hmem o2 ho hk2
+    · have h7 := h.x7 id hmem
+      rcases h7 with c | c
+      · exfalso
+        rw [show e.view.highQ = id :: r from hq, List.count_cons_self] at c
+        have : r.count id = 0 := by omega
+        exact (List.count_eq_zero.mp this) a
+      · exact c o ho
+  · rw [hd]
+    have hp : Extra false [] ({ e with resubQ := r } : Engine).view := h.popResub id r hq
+    refine ⟨hp, hc, rfl, ?_⟩
+    intro i hi hex
+    cases hi
+    have hmem : id ∈ e.userQ ++ e.resubQ := by rw [hq]; exact List.mem_append_right _ (List.mem_cons_self ..)
+    have hnd := h.x5.1
+    rw [show e.view.resubQ = id :: r from hq] at hnd
+    have hnd2 : (id :: (e.userQ ++ r)).Nodup := (List.perm_middle.nodup_iff).mp hnd
+    have hni := (List.nodup_cons.mp hnd2).1
+    refine hp.setCurrentSome hc id ⟨fun a => hni (List.mem_append_left _ a), fun a => hni (List.mem_append_right _ a), (h.x2 id hmem).1, (h.x2 id hmem).2.2⟩ ?_ hex
+    intro hor
+    rcases hor with a | a
+    · exact absurd a (h.x2 id hmem).2.1
+    · exact absurd a (h.x5.2 id hmem)
+  · rw [hd]
+    have hp : Extra false [] ({ e with userQ := r } : Engine).view := h.popUser id r hq
+    refine ⟨hp, hc, rfl, ?_⟩
+    intro i hi hex
+    cases hi
+    have hmem : id ∈ e.userQ ++ e.resubQ := by rw [hq]; exact List.mem_append_left _ (List.mem_cons_self ..)
+    have hnd := h.x5.1
+    rw [show e.view.userQ = id :: r from hq] at hnd
+    have hni := (List.nodup_cons.mp hnd).1
+    refine hp.setCurrentSome hc id ⟨fun a => hni (List.mem_append_left _ a), fun a => hni (List.mem_append_right _ a), (h.x2 id hmem).1, (h.x2 id hmem).2.2⟩ ?_ hex
+    intro hor
+    rcases hor with a | a
+    · exact absurd a (h.x2 id hmem).2.1
+    · exact absurd a (h.x5.2 id hmem)
+
 end GV
